@@ -1,6 +1,8 @@
 package checks
 
 import (
+	"golang.org/x/tools/go/ssa"
+
 	"fmt"
 	"go/ast"
 	"go/types"
@@ -237,7 +239,7 @@ func checkC10(p *core.Program, r *core.Report) {
 	var buf *tf.Term
 	if readFrom != nil {
 		rd := readFrom.Args[1]
-		if callNameHasSuffix(rd, "bytes.NewReader") && len(rd.Args) == 1 {
+		if (callNameHasSuffix(rd, "bytes.NewReader") || callNameHasSuffix(rd, "bytes.NewBuffer")) && len(rd.Args) == 1 {
 			buf = rd.Args[0]
 			for buf.K == tf.KSub && (buf.Args[1].K == tf.KNil || isConstInt(buf.Args[1], 0)) {
 				if n, ok := tf.IntConst(buf.Args[2]); ok && n == 256 || buf.Args[2].K == tf.KNil {
@@ -260,8 +262,34 @@ func checkC10(p *core.Program, r *core.Report) {
 	}
 	placed := false
 	var why []string
+	rangeTested := func(x *tf.Term, at interface{ Block() *ssa.BasicBlock }) bool {
+		for _, e := range dev.Events() {
+			if callNameHasSuffix(e.Term, "math/big.Int).BitLen") && len(e.Term.Args) == 1 && tf.Eq(dev.Resolve(e.Term.Args[0]), x) && e.Instr.Block().Dominates(at.Block()) {
+				return true
+			}
+		}
+		return false
+	}
 	for _, c := range copies {
 		if len(c.Term.Args) == 2 {
+			// copy(buf[32(i+1)-len(b) : 32(i+1)], b) with b = ints[i].Bytes(), after a range test: right-aligned in a zeroed slot
+			if src, ok := bigBytesOf(c.Term.Args[1]); ok {
+				dst := c.Term.Args[0]
+				okSlot := false
+				if dst.K == tf.KSub && tf.Eq(stripFull(dst.Args[0]), stripFull(buf)) && src.K == tf.KIdx && tf.Eq(src.Args[0], ints) && src.Args[1].K == tf.KIndVar {
+					iv := src.Args[1]
+					lo, hi := dst.Args[1], dst.Args[2]
+					n, okN := loopRangeZeroTo(iv.Loop)
+					if okN && isConstInt(n, 8) && tf.Eq(hi, tf.AffAdd(tf.AffScale(iv, 32), tf.ConstInt(32), 1)) && tf.Eq(tf.AffAdd(hi, lo, -1), tf.Len(c.Term.Args[1])) &&
+						isFreshBuffer(stripFull(buf)) && rangeTested(src, c.Instr) {
+						okSlot = true
+					}
+				}
+				if okSlot {
+					placed = true
+					continue
+				}
+			}
 			if _, ok := bigBytesOf(c.Term.Args[1]); ok {
 				why = append(why, fmt.Sprintf("copy(dst, x.Bytes()) at %s places a byte string whose length depends on the value (leading zero bytes are dropped); unless dst is exactly the right-aligned tail of a zeroed slot the coordinate is shifted — only FillBytes into the 32-byte slot is recognised as fixed-width right-aligned placement", p.Pos(c.Instr.Pos())))
 			} else {
@@ -396,4 +424,16 @@ func baseNamed(t types.Type) *types.Named {
 	}
 	n, _ := types.Unalias(t).(*types.Named)
 	return n
+}
+
+// isFreshBuffer: a locally allocated byte buffer (all zero until written here).
+func isFreshBuffer(t *tf.Term) bool {
+	if t.K == tf.KMake || t.K == tf.KAlloc {
+		return true
+	}
+	if t.K == tf.KCall && t.Name == "zeros" {
+		return true
+	}
+	_, ok := freshZeroBytes(t)
+	return ok
 }
